@@ -185,6 +185,12 @@ def run_case(ctx, kind_, idx):
                     a = (np.sort(vals) if target == "x" else rng.permutation(vals)).astype(dt)
                     lo = int(rng.choice([0, -5, 1]))
                     hi = lo + int(rng.choice([100, 10 ** 5, 10 ** 9, 255]))
+                    if rng.integers(0, 3) == 0:
+                        # the target range taken from another narrow integer array (its .min() / .max()): NumPy scalars
+                        # whose difference does not fit their type
+                        bt = [np.int8, np.int16][int(rng.integers(0, 2))]
+                        lo, hi = bt(np.iinfo(bt).min + int(rng.integers(0, 30))), bt(np.iinfo(bt).max - int(rng.integers(0, 30)))
+                        info["bounds_type"] = np.dtype(bt).name
                     info["int_case"] = str(np.dtype(dt))
                     if target == "x":
                         y = y[:len(a)] if len(y) >= len(a) else np.resize(y, len(a))
@@ -207,6 +213,7 @@ def run_case(ctx, kind_, idx):
                         callform.call(rng, process.normalize, "process.normalize", [ain], {"min_val": lo, "max_val": hi}, p_pos=0.5)
                 ctx.judged()
                 ctx.monitor("c14:normalize")
+                lo, hi = float(lo), float(hi)               # the model's arithmetic is floating point
                 rng_t = hi - lo
                 if not (isinstance(g, np.ndarray) and g.shape == a.shape):
                     ctx.violation("normalize_shape", cid, {"case": info})
